@@ -17,13 +17,20 @@ from vakt.util import Observer
 MODULE = 'Props.C11'
 THEOREMS = ['Vakt.C11.step_valid', 'Vakt.C11.any_backend_transparent', 'Vakt.C11.lru_lawful',
             'Vakt.C11.cached_transparent', 'Vakt.C11.notify_exactly_once', 'Vakt.C11.reads_never_notify',
-            'Vakt.C11.within_capacity_hit', 'Vakt.C11.immediate_repeat_hit', 'Vakt.C11.cached_logs_once', 'Vakt.Lru.run_transparent']
+            'Vakt.C11.within_capacity_hit', 'Vakt.C11.immediate_repeat_hit', 'Vakt.C11.cached_logs_once', 'Vakt.Lru.run_transparent',
+            # the whole stack: observable wrapper + decision cache over an enfolding cache over a backend
+            'Vakt.StackP.stack_transparent', 'Vakt.StackP.enfold_tracks_backend', 'Vakt.StackP.full_stack_eq_plain_guard',
+            'Vakt.StackP.full_stack_lru_populated', 'Vakt.StackP.full_stack_guard_decide']
+EXTRA_IMPORTS = ['Props.Stack']
 FLOOR = {'quick': 100, 'thorough': 1500}
 ASSUMPTIONS = ["functools.lru_cache's eviction order is modelled (most recently used first, trimmed to capacity) and compared "
                'hit by hit with the real cache; the general within-capacity clause is a theorem about that model '
                '(within_capacity_hit, immediate_repeat_hit)',
                'the fake Redis client stands in for a server']
-KINDS = ['memory', 'sqlite', 'redis-pickle']
+KINDS = ['memory', 'sqlite', 'redis-pickle',
+         # the whole stack (Props/Stack.lean: full_stack_eq_plain_guard): the observable wrapper and the decision cache
+         # over an enfolding cache over a backend
+         'enfold:sqlite', 'enfold:memory', 'enfold:mongo']
 
 
 class DictBackend(AllowanceCacheBackend):
@@ -122,7 +129,8 @@ def run(ctx):
     lines, meta = [], []
     for hi in range(nhist):
         kind = pick(rng, KINDS)
-        sorted_, eager, rejects = kind == 'sqlite', kind != 'sqlite' and kind != 'memory', kind == 'sqlite'
+        base = kind.split(':')[-1]
+        sorted_, eager, rejects = base in ('sqlite', 'mongo'), base not in ('sqlite', 'memory'), base in ('sqlite', 'mongo')
         if rng.random() < 0.4:
             # sequence-valued inquiry fields: a list and the equal-looking tuple are different inquiries
             from genrules import gen_inquiry
